@@ -223,11 +223,24 @@ func (p *process) tryRestart(v any) {
 // stopReceiver tells the current (failed) receiver that it is stopped, before a
 // fresh one is produced by the restart.
 func (p *process) stopReceiver() {
+	defer p.recoverStopped()
 	p.context.message = Stopped{}
 	applyMiddleware(p.context.receiver.Receive, p.Opts.Middleware...)(p.context)
 }
 
+// recoverStopped is deferred around the delivery of Stopped. The receiver is on its
+// way out and there is nothing left to restart; on the crash paths the delivery runs
+// inside the recover handler of Invoke/Start, where nothing else would catch a panic
+// raised by the receiver's Stopped handler: it would take the whole program down.
+func (p *process) recoverStopped() {
+	if v := recover(); v != nil {
+		slog.Error("actor panicked while handling Stopped", "pid", p.pid, "reason", v)
+	}
+}
+
 func (p *process) cleanup(cancel context.CancelFunc) {
+	// Deferred first, so it runs last: the bookkeeping below is done either way.
+	defer p.recoverStopped()
 	// cleanup is also reached without a stop request (max restarts exceeded,
 	// Shutdown): there is no context to cancel then.
 	if cancel == nil {
